@@ -1,7 +1,7 @@
 CONSTANT P = 13
 CONSTANT N = 4
 CONSTANT MUT = "none"
-CONSTANT DIDS = {1}
+CONSTANT DIDS = {7}
 INIT Init
 NEXT Next
 INVARIANT Theorem
